@@ -164,8 +164,14 @@ type Vm = Interpreter<MemoryInstance, Rec, Script>;
 fn mnemonic(op: u8) -> &'static str { instr_gen::TABLE.iter().find(|r| r.0 == op).map(|r| r.1).unwrap_or("?") }
 
 fn one_case(ctx: &mut Ctx, case: &g::Case, tag: &str) {
-    let listed: Vec<ContractId> = case.listed.iter().map(|i| case.call_ids[*i]).collect();
     let mut vm: Vm = Interpreter::with_storage(MemoryInstance::new(), Rec::new(case.storage.clone()), InterpreterParams::new(0, &case.params));
+    run_on_vm(ctx, &mut vm, case, tag);
+}
+
+/// one transaction on a (possibly already used) interpreter; `listed` is THIS transaction's contract-input set
+fn run_on_vm(ctx: &mut Ctx, vm: &mut Vm, case: &g::Case, tag: &str) {
+    let listed: Vec<ContractId> = case.listed.iter().map(|i| case.call_ids[*i]).collect();
+    vm.as_ref().drain();
     vm.set_single_stepping(true);
     let check = |ctx: &mut Ctx, what: &str, log: &[(Tab, ContractId)]| {
         for (t, c) in log {
@@ -290,6 +296,31 @@ pub fn run(ctx: &mut Ctx) {
         match ctx.guard(|| { let mut r = crate::ctx::Rng(seed); let c = g::gen_case(&mut r, knobs, gas, None); (c, r) }) {
             Ok((c, r)) => { ctx.rng = r; one_case(ctx, &c, &format!("case#{i} rng={seed:#x} gas={gas} unlisted_pm={}", knobs.unlisted_pm)); }
             Err(_) => { ctx.rng.next(); ctx.count("gen.failed"); }
+        }
+    }
+    // sequences of transactions with DIFFERENT contract-input sets over one world on ONE reused interpreter: what an
+    // earlier transaction listed must not be reachable by a later one that does not list it
+    let nseq = ctx.n(40, 400);
+    for i in 0..nseq {
+        let mut knobs = g::Knobs::normal();
+        knobs.fault_pm = 0;
+        knobs.unlisted_pm = 600;
+        knobs.code_ops = true;
+        knobs.max_blocks = 6;
+        let k = ctx.rng.range(3, 5) as usize;
+        let seed = ctx.rng.0;
+        let cases = match ctx.guard(|| { let mut r = crate::ctx::Rng(seed); let c = g::gen_world_cases(&mut r, knobs, 60_000, k); (c, r) }) {
+            Ok((c, r)) => { ctx.rng = r; c }
+            Err(m) => { ctx.rng.next(); ctx.count("gen.failed"); ctx.note(&format!("world generator panicked: {m}")); continue; }
+        };
+        let mut vm: Vm = Interpreter::with_storage(MemoryInstance::new(), Rec::new(cases[0].storage.clone()), InterpreterParams::new(0, &cases[0].params));
+        let mut seen: Vec<ContractId> = vec![];
+        for (j, case) in cases.iter().enumerate() {
+            let now: Vec<ContractId> = case.listed.iter().map(|x| case.call_ids[*x]).collect();
+            if seen.iter().any(|c| !now.contains(c)) { ctx.count("reuse.tx-drops-an-earlier-input"); }
+            run_on_vm(ctx, &mut vm, case, &format!("seq#{i} tx{j}/{k} rng={seed:#x} listed={:?}", case.listed));
+            for c in now { if !seen.contains(&c) { seen.push(c); } }
+            ctx.count("reuse.tx");
         }
     }
     predicates(ctx);
